@@ -234,6 +234,18 @@ def state_snapshot():
     return snap
 
 
+def tables_fingerprint():
+    """Cheap fingerprint of the module-level tables (keys, values and their order); used while a call is in progress."""
+    import iodata.convert
+    import iodata.periodic
+    import iodata.utils
+    from iodata.formats import cp2klog, fchk, molden, mwfn, wfn
+
+    flat = (iodata.periodic.num2sym, iodata.periodic.sym2num, iodata.periodic.num2bond, iodata.periodic.bond2num, iodata.utils.STRTOBOOL)
+    nested = (iodata.convert.HORTON2_CONVENTIONS, iodata.convert.CCA_CONVENTIONS, fchk.CONVENTIONS, molden.CONVENTIONS, wfn.CONVENTIONS, mwfn.CONVENTIONS, cp2klog.CONVENTIONS)
+    return hash((tuple((tuple(d), tuple(d.values())) for d in flat), tuple((tuple(d), tuple(map(tuple, d.values()))) for d in nested), tuple(wfn.PRIMITIVE_NAMES)))
+
+
 def warnings_state():
     return {"filters": repr(warnings.filters), "showwarning": warnings.showwarning is warnings._showwarning_orig, "showwarnmsg_impl": warnings._showwarnmsg_impl.__name__,
             "numpy_err": repr(sorted(np.geterr().items()))}
